@@ -30,6 +30,14 @@ import (
 // with a healthy source, must again use exactly its own block. For key exchanges and ecdh keys
 // the object is then driven on (ConfirmResponder / ConfirmInitiator / ECDH) against an honest
 // peer computed by the reference model for the scalar of the LATEST call.
+//
+// State that survives a failed call is also looked for BEHIND the failure: the session a healthy
+// Init / Respond opened is left pending, calls that fail in every way (and refused calls) are made
+// on the object, and only then the honest peer's answer to the healthy call is fed in ("finish"):
+// the object may refuse, or must produce exactly the reference key and confirmation values for the
+// scalar the healthy call sampled. Results other objects' calls returned earlier (generated keys,
+// signatures checked with the library's verifier under the key object, ciphertexts decrypted with
+// the key object) must still give the same answer after every failed call and at the end.
 
 // sessOp is one kind of call a session can make on its object.
 type sessOp struct {
@@ -41,10 +49,11 @@ type sessOp struct {
 }
 
 type sess struct {
-	kind   string
-	inputs string
-	ops    []sessOp // calls that draw a secret
-	aux    map[string]sessOp
+	kind    string
+	inputs  string
+	confirm bool     // key exchanges: with confirmation values
+	ops     []sessOp // calls that draw a secret
+	aux     map[string]sessOp
 }
 
 // sessReader is the ONE io.Reader object a session hands to all its calls; the script behind
@@ -105,7 +114,8 @@ var sessKinds = []string{"sm2.key", "sm2.key.nistp256", "sm2.kx", "sm9.signkey",
 
 func isKx(kind string) bool { return strings.HasSuffix(kind, ".kx") }
 
-func newSess(e *env, r *mon.Rand, kind string) *sess {
+// newSess builds the object of a history; sig (key exchanges): -1 seeded, 0 / 1 without / with confirmation values.
+func newSess(e *env, r *mon.Rand, kind string, sig int) *sess {
 	s := &sess{kind: kind, aux: map[string]sessOp{}}
 	switch kind {
 	case "sm2.key": // one *sm2.PrivateKey (lazy (d+1)^-1 cache) signing, and encrypting to its own public half
@@ -138,7 +148,11 @@ func newSess(e *env, r *mon.Rand, kind string) *sess {
 		})...)
 	case "sm2.kx": // one sm2.KeyExchange used again and again, in both roles
 		variant := []string{"", "(sig)"}[r.Intn(2)]
+		if sig >= 0 {
+			variant = []string{"", "(sig)"}[sig]
+		}
 		p := newKxParties(r, variant)
+		s.confirm = p.sig
 		late := r.Bool() // constructed without the peer's key and identity; SetPeerParameters when first needed
 		ko := newSM2KxObj(p, late)
 		s.inputs = fmt.Sprintf("one sm2.KeyExchange %s peer-parameters-at-construction=%v", p, !late)
@@ -187,6 +201,10 @@ func newSess(e *env, r *mon.Rand, kind string) *sess {
 	case "sm9.kx": // one SM9 key-exchange object used again and again, in both roles
 		ks := e.sm9k[r.Intn(len(e.sm9k))]
 		p := newSM9Kx(ks, r.Bool(), r.Range(1, 48), r.Bool())
+		if sig >= 0 {
+			p.sig = sig == 1
+		}
+		s.confirm = p.sig
 		user, err := freshSM9Enc(ks).GenerateUserKey(p.uidOwn, ks.encHID)
 		if err != nil {
 			panic("c12 harness: " + err.Error())
@@ -244,10 +262,15 @@ func newSess(e *env, r *mon.Rand, kind string) *sess {
 //
 //	own      healthy source used by this call only
 //	cont     healthy; the call continues on the source the session shares (the bytes after what earlier calls consumed)
-//	fail     own source that fails at one of the call's reads (position and kind seeded)
+//	hold     as own, but the protocol is NOT continued at once: the session this call opened stays pending (key exchanges)
+//	fail     own source that fails at one of the call's reads (position and kind seeded, or enumerated)
 //	eof      own source that ends before the call has all its bytes
 //	destroy  (key exchanges) Destroy() on the object
 //	refuse   (key exchanges) a Respond whose peer message is invalid: reads its block, then is refused
+//	finish   (key exchanges) no call that draws anything: the honest peer's answer to the LAST HEALTHY call is now fed to
+//	         ConfirmResponder / ConfirmInitiator, without and (if the exchange uses them) with the confirmation value. The
+//	         failed / refused calls in between must not have left anything in the object: the step is either refused
+//	         (error, no key) or gives exactly the reference key and confirmations for the scalar that healthy call sampled
 var histPatterns = [][]string{
 	{"own", "own"},
 	{"own", "own", "own", "own"},
@@ -265,6 +288,25 @@ var histPatternsKx = [][]string{
 	{"refuse", "own"},
 	{"own", "refuse", "cont"},
 	{"cont", "refuse", "cont", "destroy", "cont"},
+	{"hold", "refuse", "finish"},
+	{"own", "fail", "eof", "finish", "own"},
+	{"cont", "hold", "eof", "fail", "finish"},
+}
+
+// failSpecs are the ways the call between a healthy call and the continuation of its session fails.
+var failSpecs = append(func() (out []string) {
+	for _, k := range faultKinds {
+		out = append(out, k.String())
+	}
+	return
+}(), "eof")
+
+// force fixes what a history otherwise chooses by seed (the enumerated "finish" histories).
+type force struct {
+	sig   int         // -1: seeded; 0 / 1: key exchange without / with confirmation values
+	op    map[int]int // step -> index of the operation
+	fault map[int]int // step -> index into faultKinds
+	label string      // how the call in between fails (class key)
 }
 
 func history(x *mon.Ctx) {
@@ -288,8 +330,47 @@ func history(x *mon.Ctx) {
 				if c == nil {
 					continue
 				}
-				historyCase(e, c, kind, pat, pi*reps+rep)
+				historyCase(e, c, kind, pat, pi*reps+rep, nil)
 				c.End()
+			}
+		}
+	}
+	// state that survives a FAILED call, seen through the session of the EARLIER healthy call: for both key exchanges,
+	// (healthy call: Init / Respond) x (failing call: Init / Respond) x (every fault kind, premature end of the source)
+	// x (exchange without / with confirmation values), then the pending session is finished. quick takes one of the
+	// two confirmation settings per combination (alternating); with confirmation the step is made both ways anyway.
+	for _, kind := range sessKinds {
+		if !isKx(kind) {
+			continue
+		}
+		for healthy := 0; healthy < 2; healthy++ {
+			for failing := 0; failing < 2; failing++ {
+				for fi, fs := range failSpecs {
+					for sig := 0; sig < 2; sig++ {
+						if !x.Thorough() && sig != (healthy+failing+fi+int(x.Seed%2))%2 {
+							continue
+						}
+						for rep := 0; rep < x.Scale(1, 8); rep++ {
+							pat := []string{"hold", "fail", "finish"}
+							f := &force{sig: sig, op: map[int]int{0: healthy, 1: failing}, fault: map[int]int{}, label: fs}
+							if fs == "eof" {
+								pat[1] = "eof"
+							} else {
+								f.fault[1] = fi
+							}
+							if rep%4 == 3 { // two failing calls, the second one seeded
+								pat = []string{"hold", pat[1], []string{"fail", "eof"}[rep/4%2], "finish"}
+							}
+							c := x.Begin("history object=%s confirmation=%v healthy-call=%d then failing-call=%d source-fails=%s calls=%s rep=%d",
+								kind, sig == 1, healthy, failing, fs, strings.Join(pat, ","), rep)
+							if c == nil {
+								continue
+							}
+							historyCase(e, c, kind, pat, rep, f)
+							c.End()
+						}
+					}
+				}
 			}
 		}
 	}
@@ -300,25 +381,70 @@ type earlier struct {
 	step int
 	what string
 	k    *big.Int
-	out  []byte        // canonical bytes of what the call returned, copied when it returned
-	live func() []byte // the same re-read from the returned key object (key generators)
+	base []byte        // what using the call's result gave when the call returned (outcome.live)
+	live func() []byte // the same, asked again later
 }
 
-func historyCase(e *env, c *mon.Case, kind string, pat []string, q int) {
-	s := newSess(e, c.R, kind)
+// pendingSession is the protocol session the last healthy call of a key exchange opened.
+type pendingSession struct {
+	what   string
+	k      *big.Int
+	follow func(k *big.Int, opt followOpt) (string, error)
+}
+
+func historyCase(e *env, c *mon.Case, kind string, pat []string, q int, f *force) {
+	sig := -1
+	if f != nil {
+		sig = f.sig
+	}
+	s := newSess(e, c.R, kind, sig)
 	c.Detail("object", s.inputs)
 	c.Event("histories", 1)
 	rd := &sessReader{}
 	var shared *mon.Script
 	var prev []earlier
+	var pending *pendingSession
 	var tags []string
+	disturbed := 0 // failed / refused calls since the last healthy one
 	n := len(s.ops)
 	for i, mode := range pat {
+		last := i == len(pat)-1
+		if mode == "finish" {
+			tags = append(tags, "finish")
+			if pending == nil || pending.follow == nil {
+				continue
+			}
+			what := fmt.Sprintf("step %d/%d: the session opened by %s is finished after %d failed/refused call(s) on the object", i+1, len(pat), pending.what, disturbed)
+			// without the peer's confirmation value first (nothing can then be refused on its account), then as the exchange is configured
+			for _, opt := range []followOpt{{lenient: true, withhold: true}, {lenient: true}} {
+				if !s.confirm && !opt.withhold {
+					continue
+				}
+				var why string
+				var refused error
+				if !c.Call(what, func() { why, refused = pending.follow(pending.k, opt) }) {
+					return
+				}
+				switch {
+				case why != "":
+					c.Fail("mismatch", "%s (peer's confirmation value withheld=%v); that call sampled scalar %064x, but now: %s", what, opt.withhold, pending.k, why)
+					return
+				case refused != nil:
+					c.Event("pending_session_refused_after_failed_call", 1)
+					c.Detail("refusal", refused.Error())
+				default:
+					c.Event("pending_session_finished_with_sampled_scalar", 1)
+				}
+			}
+			continue
+		}
 		// the first two calls walk systematically through the ordered pairs of the object's operations
 		var so sessOp
 		switch {
 		case mode == "destroy" || mode == "refuse":
 			so = s.aux[mode]
+		case f != nil && hasKey(f.op, i):
+			so = s.ops[f.op[i]%n]
 		case i == 0:
 			so = s.ops[q%n]
 		case i == 1:
@@ -339,6 +465,7 @@ func historyCase(e *env, c *mon.Case, kind string, pat []string, q int) {
 				return
 			}
 			c.Event("destroy_calls", 1)
+			pending = nil // the caller gave the session up
 			continue
 		}
 
@@ -370,13 +497,18 @@ func historyCase(e *env, c *mon.Case, kind string, pat []string, q int) {
 			src = mon.NewScript(stream)
 			src.FailAt = c.R.Intn(modelReads(so.o, so.variant, j))
 			src.Fault = faultKinds[c.R.Intn(len(faultKinds))]
+			if f != nil && hasKey(f.fault, i) {
+				src.Fault = faultKinds[f.fault[i]]
+			}
+			c.Detail(fmt.Sprintf("call%d_fault", i+1), fmt.Sprintf("%s at read %d", src.Fault, src.FailAt))
 		case "eof":
 			need := 32 * (j + 1)
 			if modelReads(so.o, so.variant, j) > j+1 {
 				need += 16
 			}
 			src = mon.NewScript(stream[:c.R.Intn(need)])
-		default: // own, refuse
+			c.Detail(fmt.Sprintf("call%d_fault", i+1), fmt.Sprintf("source ends after %d bytes", len(src.Stream)))
+		default: // own, hold, refuse
 			src = mon.NewScript(stream)
 		}
 		rd.arm(src)
@@ -385,14 +517,17 @@ func historyCase(e *env, c *mon.Case, kind string, pat []string, q int) {
 			return
 		}
 
+		healthy := false
 		switch {
 		case so.aux == "refuse":
 			// not a failure of the source and nothing the property speaks about, except that an output would have to be faithful;
-			// what matters is the state it leaves behind for the next call
+			// what matters is the state it leaves behind for the next call and for the pending session
 			c.Event("refused_calls", 1)
 			if out.err == nil {
 				c.Inconclusive("%s: the invalid peer message was not refused", what)
+				return
 			}
+			disturbed++
 		case mode == "fail":
 			if src.Calls <= src.FailAt {
 				c.Fail("mismatch", "%s: the fault at read %d was never reached (%d reads made)", what, src.FailAt, src.Calls)
@@ -402,12 +537,15 @@ func historyCase(e *env, c *mon.Case, kind string, pat []string, q int) {
 			if judgeFailure(c, so.o, so.variant, fmt.Sprintf("%s: random source failed (%s) at read %d", what, src.Fault, src.FailAt), &out) {
 				c.Event("fault_error_no_output", 1)
 			}
+			disturbed++
 		case mode == "eof":
 			c.Event("faults_injected", 1)
 			if judgeFailure(c, so.o, so.variant, fmt.Sprintf("%s: random source ended after %d bytes", what, len(src.Stream)), &out) {
 				c.Event("fault_error_no_output", 1)
 			}
+			disturbed++
 		default:
+			healthy = true
 			note := func() string { return relate(so.o.rule, &out, prev) }
 			c.Detail("judging", what)
 			v := checkHealthyAt(c, so.o, so.variant, &out, src, off, calls0, 0, note)
@@ -418,9 +556,14 @@ func historyCase(e *env, c *mon.Case, kind string, pat []string, q int) {
 			if i > 0 {
 				c.Event("later_calls_own_block", 1)
 			}
+			disturbed = 0
+			pending = nil
 			if out.follow != nil {
+				pending = &pendingSession{what: what, k: v.k, follow: out.follow}
+			}
+			if out.follow != nil && mode != "hold" {
 				var why string
-				if !c.Call(what+": protocol continued on the object", func() { why = out.follow(v.k) }) {
+				if !c.Call(what+": protocol continued on the object", func() { why, _ = out.follow(v.k, followOpt{}) }) {
 					return
 				}
 				if why != "" {
@@ -429,24 +572,57 @@ func historyCase(e *env, c *mon.Case, kind string, pat []string, q int) {
 				}
 				c.Event("object_continues_with_sampled_scalar", 1)
 			}
-			prev = append(prev, earlier{step: i + 1, what: what, k: v.k, out: append([]byte{}, out.out...), live: out.live})
+			ear := earlier{step: i + 1, what: what, k: v.k, live: out.live}
+			if out.live != nil {
+				if !c.Call(what+": result used with the kept object", func() { ear.base = out.live() }) {
+					return
+				}
+			}
+			prev = append(prev, ear)
 		}
-		// keys generated earlier must still be what they were when they were returned
+		// what earlier calls returned must still be what it was with the kept object: asked again after every call that failed
+		// or was refused, and at the end of the history (generated keys unchanged, signatures made before still verify under
+		// the key object, ciphertexts made before still decrypt with it)
+		if healthy && !last {
+			continue
+		}
 		for _, p := range prev {
-			if p.live == nil || p.step == i+1 {
+			if p.live == nil || (healthy && p.step == i+1) {
 				continue
 			}
-			if now := p.live(); !bytes.Equal(now, p.out) {
-				c.Fail("mismatch", "the key returned by %s (scalar %064x) reads %x after %s; it was %x - keys of different calls share bits", p.what, p.k, now, what, p.out)
+			var now []byte
+			if !c.Call("result of "+p.what+" used again after "+what, func() { now = p.live() }) {
 				return
 			}
-			c.Event("earlier_keys_unchanged", 1)
+			if !bytes.Equal(now, p.base) {
+				c.Fail("mismatch", "what %s returned (secret scalar %064x) gave %q with the kept object when it was returned; after %s it gives %q", p.what, p.k, show(p.base), what, show(now))
+				return
+			}
+			c.Event("earlier_results_unchanged", 1)
+			if !healthy {
+				c.Event("earlier_results_unchanged_after_failed_call", 1)
+			}
 		}
 	}
 	c.Class("hist/%s/%s", kind, strings.Join(pat, ","))
 	for i := 1; i < len(tags); i++ {
 		c.Class("hist/%s/%s>%s", kind, tags[i-1], tags[i])
 	}
+	if f != nil {
+		c.Class("hist/%s/confirm=%v/healthy=%s/failing=%s/%s", kind, s.confirm, tags[0], tags[1], f.label)
+	}
+}
+
+func hasKey(m map[int]int, k int) bool { _, ok := m[k]; return ok }
+
+// show renders a live answer: text as it is, key bytes in hex.
+func show(b []byte) string {
+	for _, v := range b {
+		if v < 0x20 || v > 0x7e {
+			return hexs(b)
+		}
+	}
+	return string(b)
 }
 
 // relate says whether a wrong output is the one an EARLIER call's scalar produces (detail for the violation text).
